@@ -391,8 +391,8 @@ macro_rules
     | exact safe_compare_eq _ _
     | exact safe_jumpTo _
     | exact safe_setPc _
-    | (apply safe_execNextLast; assumption)
-    | (apply safe_mstructAlloc; assumption))
+    | exact safe_execNextLast ‹_›
+    | exact safe_mstructAlloc ‹_› _)
 
 theorem checkedInc_ne_none {x : Nat} (h : x < usizeMax) : checkedInc x ≠ none := by
   unfold checkedInc; split <;> simp; omega
